@@ -266,7 +266,15 @@ def eval_c09(ctx, tr):
             # the first *accepted* dispatch decides whose child it is
             r = result_of(fd.caller)
             n_here = sum(1 for c in (r.event_children if r is not None else []) if c is x)
-            n_else = sum(1 for (l2, r2) in all_results if r2 is not r for c in r2.event_children if c is x)
+            # other handlers that dispatched the very same event object themselves (and had it accepted) may list it too;
+            # what the property excludes is a listing under a handler that did not dispatch it
+            others = [result_of(d.caller) for d in tr.DR if d.ev == lab and d.caller in tr.Eh and d.caller != fd.caller]
+            n_else = sum(1 for (l2, r2) in all_results if r2 is not r and not any(r2 is o for o in others) for c in r2.event_children if c is x)
+            for o in others:
+                if o is not None:
+                    n_o = sum(1 for c in o.event_children if c is x)
+                    n_d = sum(1 for d in tr.DR if d.ev == lab and d.caller in tr.Eh and result_of(d.caller) is o)
+                    ctx.check('C09.child_once', n_o <= n_d, ev=lab, listed=n_o, dispatched=n_d, why='listed more often than dispatched by that handler')
             first_dr = next((d for d in tr.DR if d.ev == lab), None)
             if first_dr is not None and first_dr.caller == fd.caller:
                 ctx.check('C09.child_once', n_here == 1 and n_else == 0, ev=lab, here=n_here, elsewhere=n_else)
